@@ -24,6 +24,21 @@ class Raised(Exception):
         self.kind = kind
 
 
+class Opaque:
+    """a value about which nothing is known: it can be stored, moved and returned, but not tested or compared"""
+    def __init__(self, name: str):
+        self.name = name
+
+    def __repr__(self) -> str:
+        return f"<{self.name}>"
+
+    def __eq__(self, other: object) -> bool:
+        return isinstance(other, Opaque) and other.name == self.name
+
+    def __hash__(self) -> int:
+        return hash(self.name)
+
+
 class _Break(Exception):
     pass
 
@@ -160,6 +175,11 @@ class Mini:
                 obj[self.index(t.slice)] = v
             except IndexError:
                 raise Raised("IndexError")
+        elif isinstance(t, ast.Attribute):
+            obj = self.expr(t.value)
+            if not isinstance(obj, SimpleNamespace):
+                raise Unsupported("attribute assignment on " + type(obj).__name__)
+            setattr(obj, t.attr, v)
         else:
             raise Unsupported(f"assignment target {type(t).__name__}")
 
@@ -286,6 +306,8 @@ class Mini:
             left = self.expr(e.left)
             for op, r in zip(e.ops, e.comparators):
                 right = self.expr(r)
+                if isinstance(left, Opaque) or isinstance(right, Opaque):
+                    raise Unsupported("comparison of an opaque value")
                 if isinstance(op, (ast.Eq, ast.NotEq)):
                     ok = (left == right) if isinstance(op, ast.Eq) else (left != right)
                 elif isinstance(op, (ast.In, ast.NotIn)):
@@ -293,7 +315,7 @@ class Mini:
                         raise Unsupported("membership in " + type(right).__name__)
                     ok = (left in right) if isinstance(op, ast.In) else (left not in right)
                 elif isinstance(op, (ast.Is, ast.IsNot)):
-                    if not (left is None or right is None or isinstance(left, bool) or isinstance(right, bool)):
+                    if not (left is None or right is None or isinstance(left, bool) or isinstance(right, bool) or (isinstance(left, SimpleNamespace) and isinstance(right, SimpleNamespace))):
                         raise Unsupported("identity of non-singletons")
                     ok = (left is right) if isinstance(op, ast.Is) else (left is not right)
                 elif (isinstance(left, int) and isinstance(right, int)) or (isinstance(left, tuple) and isinstance(right, tuple) and all(isinstance(x, int) for x in left + right)):
@@ -370,6 +392,8 @@ class Mini:
                         raise Unsupported("format")
                 if m in ("startswith", "endswith") and len(args) == 1 and isinstance(args[0], (str, tuple)):
                     return getattr(recv, m)(args[0] if isinstance(args[0], str) else tuple(args[0]))
+            if isinstance(recv, SimpleNamespace) and callable(getattr(recv, m, None)):
+                return getattr(recv, m)(*args)
             raise Unsupported(f"method .{m} on {type(recv).__name__}")
         if isinstance(e.func, ast.Name):
             f = e.func.id
